@@ -163,7 +163,16 @@ def fmt_sizes(ctx, fi, unpack_call, env):
     """field sizes of struct.unpack('>{0}s{1}s..'.format(a, b, ..), ..) (a sa.sval CallRec) when the key size of the
     negotiated cipher / integrity / prf object is env['encr'] / env['integ'] / env['prf'] and the SA is ESP"""
     f = unpack_call.args.get('#0')
-    if f is None or not (tq.is_call(f, 'method.format') and f[2][0] == 'const' and isinstance(f[2][2], str)):
+    if f is not None and not (tq.is_call(f, 'method.format') and f[2][0] == 'const' and isinstance(f[2][2], str)):
+        # a format put together at run time ('>' + ''.join(f'{n}s' for n in sizes)): the string it is for these sizes
+        try:
+            text = tq.teval(f, _size_leaf(env))
+        except (tq.NoValue, Exception):
+            return None
+        if isinstance(text, str) and re.fullmatch(r'>(\d+s)+', text):
+            return [int(x) for x in re.findall(r'(\d+)s', text)]
+        return None
+    if f is None:
         return None
     text = f[2][2]
     fields = re.findall(r'\{(\d*)\}s', text[1:])
